@@ -31,6 +31,7 @@ def main():
         traceback.print_exc()
         print("no check for %s" % pid)
         return 2
+    res = None
     try:
         if a.replay:
             if hasattr(mod, "replay"):
@@ -42,11 +43,22 @@ def main():
         return res.finish()
     except common.MachineryError as e:
         print("MACHINERY-FAILURE %s: %s" % (pid, e))
-        return 2
+        return _after_failure(res)
     except Exception:
         traceback.print_exc()
         print("MACHINERY-FAILURE %s: unexpected exception in the harness" % pid)
-        return 2
+        return _after_failure(res)
+
+
+def _after_failure(res):
+    """A machinery failure (a canary that is not rejected, a crashed TLC run, ...) is never a verdict.  But
+    violations that were recorded BEFORE it are real mismatches between the code and the specification (each
+    has its own replay file) and are still reported: a change to pymtl3 that breaks a property often also
+    breaks an assumption of a later self-test of the harness."""
+    if res is not None and res.violations:
+        print("(the violations recorded before the machinery failure are reported)")
+        return res.finish()
+    return 2
 
 
 if __name__ == "__main__":
